@@ -59,6 +59,8 @@ class G:
         return r.choice([0, 0, 18, 18, 1, 17, 9]) if r.random() < 0.35 else r.randrange(0, 19)
 
     def dec(self):
+        if self.r.random() < 0.04:
+            return 0, self.r.randrange(0, 19)      # non-normalised zero
         return self.coeff(), self.scale()
 
     def mode(self):
@@ -119,6 +121,18 @@ class G:
                     lo, hi = INT_TYPES[ty]
                     i = r.choice([lo, hi])
                     a = r.choice([MAX, -MAX, MAX - abs(i) if abs(i) < MAX else 0, a])
+                elif k == 6:  # exact result exactly at / one beyond the i128 limits (-2^127 is still an i128)
+                    tgt = r.choice([-MAX - 1, -MAX - 2, MAX, MAX + 1, -MAX])
+                    i = max(INT_TYPES[ty][0], min(INT_TYPES[ty][1], r.choice([1, -1, 2, -2, 7, -7, i])))
+                    p = 0 if r.random() < 0.6 else p
+                    s10 = i * 10 ** p
+                    sub = op in ("sub", "csub")
+                    # pos l: i op a ; pos r: a op i
+                    if pos == "l":
+                        a = (s10 - tgt) if sub else (tgt - s10)
+                    else:
+                        a = (tgt + s10) if sub else (tgt - s10)
+                    if abs(a) > MAX: a = self.clamp(a)
                 yield f"{self.mode()} i{op} {ty} {pos} {r.choice(forms)} {a} {p} {i}"
 
     # ---------------------------------------------------------------- C02
@@ -741,16 +755,33 @@ class G:
                 yield f"{self.mode()} {op} {f} {a} {p} {b} {q} {r.randrange(0, 19)}"
         gens = [self.c01, self.c02, self.c03, self.c04, self.c10, self.c08]
         per = max(1, n // len(gens))
+        pair = {"iadd": "add", "isub": "sub", "imul": "mul", "idiv": "div", "irem": "rem", "icadd": "cadd", "icsub": "csub",
+                "icmul": "cmul", "icdiv": "cdiv", "icrem": "crem"}
         for g in gens:
             for line in g(per * 3):
                 if " i" in line:
                     yield line
+                    t = line.split()
+                    # the same operation with Decimal::from(i) in the integer's position
+                    if t[1] in pair and len(t) == 8:
+                        md, op, ty, pos, form, a, p, i = t
+                        f = form if form != "as" else "vv"
+                        if pos == "r":
+                            yield f"{md} {pair[op]} {f} {a} {p} {i} 0"
+                        else:
+                            yield f"{md} {pair[op]} {f} {i} 0 {a} {p}"
+                    elif t[1] == "idivr" and len(t) == 9:
+                        md, op, ty, pos, form, a, p, i, nn = t
+                        if pos == "r":
+                            yield f"{md} divr {form} {a} {p} {i} 0 {nn}"
+                        else:
+                            yield f"{md} divr {form} {i} 0 {a} {p} {nn}"
 
     # ---------------------------------------------------------------- C19
     def c19_exhaustive(self, steps):
         """all schedules of `steps` operations over 2 threads with the op alphabet below"""
         import itertools
-        alphabet = ["s1:up", "s2:down", "s1:floor", "g1", "g2", "r1:25:1:0", "r2:-25:1:0", "r2:25:1:0"]
+        alphabet = ["s1:up", "s1:down", "s1:heven", "s2:floor", "s2:heven", "g1", "g2", "p1", "p2"]
         for L in range(1, steps + 1):
             for combo in itertools.product(alphabet, repeat=L):
                 yield "threads " + " ".join(combo)
@@ -763,8 +794,10 @@ class G:
             for _ in range(r.randrange(1, 14)):
                 t = r.randrange(1, nt + 1)
                 k = r.randrange(3)
-                if k == 0: ops.append(f"s{t}:{self.mode()}")
+                k = r.randrange(4)
+                if k == 0: ops.append(f"s{t}:{r.choice(MODES + ['heven', 'heven'])}")
                 elif k == 1: ops.append(f"g{t}")
+                elif k == 3: ops.append(f"p{t}")
                 else:
                     c = r.choice([25, -25, 15, -15, 21, -21, 29, 35, -35, 5, -5, 1, -1, self.small()])
                     ops.append(f"r{t}:{c}:1:0")
